@@ -33,6 +33,9 @@ type Pinned struct {
 	// have been inlined into their caller).
 	Flat    map[string]string   `json:"flat,omitempty"`
 	Callers map[string][]string `json:"callers,omitempty"`
+	// Params: parameter names in order (receiver first, as in the SSA form), so that a rule that talks about "the third
+	// argument" of a function follows the parameter when the signature is reordered
+	Params map[string][]string `json:"params,omitempty"`
 }
 
 type PinnedType struct {
@@ -241,7 +244,7 @@ func (c *Ctx) DumpPinned() ([]byte, error) {
 	ident := func(tn *types.TypeName) string { return tn.Name() }
 	out := map[string]Pinned{}
 	for rel, p := range c.ByRel {
-		pin := Pinned{Types: map[string]PinnedType{}, Funcs: map[string]string{}, Flat: map[string]string{}, Callers: map[string][]string{}}
+		pin := Pinned{Types: map[string]PinnedType{}, Funcs: map[string]string{}, Flat: map[string]string{}, Callers: map[string][]string{}, Params: map[string][]string{}}
 		for _, tn := range pkgTypeNames(p) {
 			pt := PinnedType{FP: namedFP(tn)}
 			if st, ok := tn.Type().Underlying().(*types.Struct); ok {
@@ -254,6 +257,15 @@ func (c *Ctx) DumpPinned() ([]byte, error) {
 		for _, f := range pkgFuncs(p) {
 			pin.Funcs[funcKey(f, ident)] = funcFP(f, ident)
 			pin.Flat[funcKey(f, ident)] = flatFP(f, ident)
+			sig := f.Type().(*types.Signature)
+			var names []string
+			if sig.Recv() != nil {
+				names = append(names, sig.Recv().Name())
+			}
+			for i := 0; i < sig.Params().Len(); i++ {
+				names = append(names, sig.Params().At(i).Name())
+			}
+			pin.Params[funcKey(f, ident)] = names
 		}
 		// static callers within the package (through function literals as well)
 		if sp := c.SSA[rel]; sp != nil {
@@ -306,6 +318,7 @@ func (c *Ctx) buildAliases() error {
 	c.typeByCanon = map[string]*types.TypeName{}
 	c.freshFuncs = map[*types.Func]bool{}
 	c.pinnedCallers = map[string][]string{}
+	c.pinnedParams = map[string][]string{}
 	c.Aliases = nil
 	set := func(o types.Object, name string) {
 		if o.Name() == name {
@@ -362,6 +375,11 @@ func (c *Ctx) buildAliases() error {
 			}
 		}
 		for _, tn := range pkgTypeNames(p) {
+			if _, known := pin.Types[CanonName(tn)]; !known {
+				freshMu.Lock()
+				freshTypes[tn] = true
+				freshMu.Unlock()
+			}
 			c.typeByCanon[rel+"|"+CanonName(tn)] = tn
 			pt, ok := pin.Types[CanonName(tn)]
 			st, isStruct := tn.Type().Underlying().(*types.Struct)
@@ -396,6 +414,9 @@ func (c *Ctx) buildAliases() error {
 		}
 		for k, v := range pin.Callers {
 			c.pinnedCallers[rel+"|"+k] = v
+		}
+		for k, v := range pin.Params {
+			c.pinnedParams[rel+"|"+k] = v
 		}
 		cur := map[string]*types.Func{}
 		for _, f := range pkgFuncs(p) {
@@ -674,4 +695,40 @@ func FuncKey(fn *ssa.Function) string {
 		return TypeName(recv.Type()) + "." + fn.Name()
 	}
 	return fn.Name()
+}
+
+// ArgIndex translates "argument number pinned of fn on the pinned tree" (receiver counted, as in ssa.Function.Params and
+// CallCommon.Args of a static call) into its index in the tree under analysis: the parameter of the same name if the
+// function still has one, the same index if the parameter list has the same length, otherwise not found — the signature
+// changed in a way the rule cannot follow (parameters bundled into a struct, split, dropped).
+func (c *Ctx) ArgIndex(fn *ssa.Function, pinned int) (int, bool) {
+	if fn == nil {
+		return 0, false
+	}
+	rel := ""
+	if fn.Pkg != nil {
+		rel, _ = relPath(fn.Pkg.Pkg.Path())
+	}
+	names := c.pinnedParams[rel+"|"+FuncKey(fn)]
+	if pinned < 0 || names == nil {
+		if pinned >= 0 && pinned < len(fn.Params) {
+			return pinned, true // a function the inventory does not know: nothing to translate
+		}
+		return 0, false
+	}
+	if pinned >= len(names) {
+		return 0, false
+	}
+	want := names[pinned]
+	if want != "" && want != "_" {
+		for i, p := range fn.Params {
+			if p.Name() == want {
+				return i, true
+			}
+		}
+	}
+	if len(fn.Params) == len(names) {
+		return pinned, true
+	}
+	return 0, false
 }
